@@ -296,7 +296,8 @@ func ruleP03Insert(p *Prog, r *Report) {
 	r.check(okLen, rule, "length", p.instrPos(mk), "new length = old lines + inserted texts", "the new line list does not have len(old)+len(inserted) elements: lines are lost or invented")
 	// element stores
 	nCopy, nNew := 0, 0
-	var copyIdx *Poly
+	var copyIdx, oldIdx *Poly
+	var copyStore *ssa.Store
 	eachInstr(f, func(in ssa.Instruction) {
 		st, ok := in.(*ssa.Store)
 		if !ok {
@@ -332,6 +333,7 @@ func ruleP03Insert(p *Prog, r *Report) {
 					d.addScaled(polyOf(ia.Index), 1)
 					d.addScaled(polyOf(ia2.Index), -1)
 					copyIdx = d
+					oldIdx, copyStore = polyOf(ia2.Index), st
 					r.ok(rule, "copy", p.instrPos(st), "an old line is copied as a whole (text and line ending)")
 					return
 				}
@@ -362,6 +364,44 @@ func ruleP03Insert(p *Prog, r *Report) {
 					}
 				}
 			}
+		}
+	}
+	// or: the old lines are read through a cursor of their own that starts at 0 and advances by
+	// one exactly where a line is copied (0, 1, 2, … in order)
+	if !okOrder && oldIdx != nil && oldIdx.C == 0 && len(oldIdx.Terms) == 1 && copyStore != nil {
+		for k, c := range oldIdx.Terms {
+			ph, ok := strip(oldIdx.leafV[k]).(*ssa.Phi)
+			if !ok || c != 1 {
+				continue
+			}
+			good, sawInc := true, false
+			phis, ins := phiCycle(ph)
+			for _, in := range ins {
+				if kk, isK := constInt(in); isK {
+					if kk != 0 {
+						good = false
+					}
+					continue
+				}
+				bo, isBo := strip(in).(*ssa.BinOp)
+				if !isBo || bo.Op != token.ADD {
+					good = false
+					continue
+				}
+				one, isK := constInt(bo.Y)
+				base, isPhi := strip(bo.X).(*ssa.Phi)
+				if !isK || one != 1 || !isPhi || !phis[base] {
+					good = false
+					continue
+				}
+				// the increment sits with the copy
+				if bo.Block() == copyStore.Block() || copyStore.Block().Dominates(bo.Block()) {
+					sawInc = true
+				} else {
+					good = false
+				}
+			}
+			okOrder = good && sawInc
 		}
 	}
 	r.check(okOrder, rule, "order", p.pos(f.Pos()), "old line i lands at i + (number of lines inserted before it): original order preserved", "the index arithmetic of the copy is not old = new - insertedSoFar (order of the original lines may change)")
